@@ -414,31 +414,38 @@ Present(ev) ==     \* judged for the fields that belong to the event's own layer
     /\ (ev.layer \in { "tcp", "udp" } =>
           /\ (ev.ps = -1 => << ev.layer, "ps" >> \notin fmt) /\ (ev.pd = -1 => << ev.layer, "pd" >> \notin fmt))
 
+(* A printed pair (source, destination) is the frame's - or, on a send event, the reply's; *)
+(* not a mixture of the two.  An absent field agrees with anything.                       *)
+F1(printed, v) == printed = << >> \/ printed = v
+PairOK(ps, pd, verb, fs, fd, hasRep, rs, rd) ==
+    \/ (F1(ps, fs) /\ F1(pd, fd))
+    \/ (verb = "send" /\ hasRep /\ F1(ps, rs) /\ F1(pd, rd))
+    \/ (verb = "send" /\ hasRep /\ F1(ps, rd) /\ F1(pd, rs))       \* "peer first" (the implementation's ARP send lines)
+
 LogFieldsOK(b, obs, ev) ==
     LET r == obs.rep
         hasRep == obs.kind = "reply" /\ Len(r) >= 14
-        macs == { EthSrc(b), EthDst(b) } \cup (IF hasRep THEN { EthSrc(r), EthDst(r) } ELSE {})
     IN
     IF ev.layer = "arp" THEN
         IF ~ArpOK(b) THEN FALSE
-        ELSE LET am == { ArpSha(b), ArpTha(b) } \cup (IF hasRep /\ Len(r) >= 42 THEN { ArpSha(r), ArpTha(r) } ELSE {})
-                 ai == { ArpSpa(b), ArpTpa(b) } \cup (IF hasRep /\ Len(r) >= 42 THEN { ArpSpa(r), ArpTpa(r) } ELSE {})
-             IN /\ FieldOK(ev.ms, ev.verb, ArpSha(b), am) /\ FieldOK(ev.md, ev.verb, ArpTha(b), am)
-                /\ FieldOK(ev.is, ev.verb, ArpSpa(b), ai) /\ FieldOK(ev.id, ev.verb, ArpTpa(b), ai)
+        ELSE LET ra == hasRep /\ Len(r) >= 42 IN
+             /\ PairOK(ev.ms, ev.md, ev.verb, ArpSha(b), ArpTha(b), ra, IF ra THEN ArpSha(r) ELSE << >>, IF ra THEN ArpTha(r) ELSE << >>)
+             /\ PairOK(ev.is, ev.id, ev.verb, ArpSpa(b), ArpTpa(b), ra, IF ra THEN ArpSpa(r) ELSE << >>, IF ra THEN ArpTpa(r) ELSE << >>)
     ELSE
-        /\ FieldOK(ev.ms, ev.verb, EthSrc(b), macs) /\ FieldOK(ev.md, ev.verb, EthDst(b), macs)
+        /\ PairOK(ev.ms, ev.md, ev.verb, EthSrc(b), EthDst(b), hasRep, IF hasRep THEN EthSrc(r) ELSE << >>, IF hasRep THEN EthDst(r) ELSE << >>)
         /\ IF ev.layer = "eth" THEN TRUE
            ELSE LET x == L3Ctx(b)
-                    ips == { x.src, x.dst } \cup (IF hasRep /\ ReplyShape(b, r, 0)
-                                                  THEN (IF x.ver = 4 THEN { Ip4Src(r), Ip4Dst(r) } ELSE { Ip6Src(r), Ip6Dst(r) })
-                                                  ELSE {})
-                IN /\ FieldOK(ev.is, ev.verb, x.src, ips) /\ FieldOK(ev.id, ev.verb, x.dst, ips)
+                    ri == hasRep /\ ReplyShape(b, r, 0)
+                    rsrc == IF ~ri THEN << >> ELSE IF x.ver = 4 THEN Ip4Src(r) ELSE Ip6Src(r)
+                    rdst == IF ~ri THEN << >> ELSE IF x.ver = 4 THEN Ip4Dst(r) ELSE Ip6Dst(r)
+                IN /\ PairOK(ev.is, ev.id, ev.verb, x.src, x.dst, ri, rsrc, rdst)
                    /\ (ev.tr = -1 \/ ev.tr = x.proto)
                    /\ IF ev.layer \in { "tcp", "udp" }
                       THEN LET sp == U16(b, x.s)  dp == U16(b, x.s + 2)
-                               ports == { sp, dp, (dp + 1) % 65536 }
-                           IN /\ (ev.ps = -1 \/ ev.ps = sp \/ (ev.verb = "send" /\ ev.ps \in ports))
-                              /\ (ev.pd = -1 \/ ev.pd = dp \/ (ev.verb = "send" /\ ev.pd \in ports))
+                               sh == (dp + 1) % 65536                  \* a STUN change-port answer leaves from the next port
+                           IN \/ ((ev.ps = -1 \/ ev.ps = sp) /\ (ev.pd = -1 \/ ev.pd = dp))
+                              \/ (ev.verb = "send" /\ (ev.ps = -1 \/ ev.ps = sp) /\ (ev.pd = -1 \/ ev.pd = sh))
+                              \/ (ev.verb = "send" /\ (ev.ps = -1 \/ ev.ps \in { dp, sh }) /\ (ev.pd = -1 \/ ev.pd = sp))
                       ELSE TRUE
 
 (* the layers a frame can be handed down through, from its EtherType and protocol numbers *)
